@@ -139,6 +139,8 @@ def main():
                 print("%-40s RUNNER ERROR %s" % (r["case"], e), flush=True)
             with lock:
                 results.append(r)
+                # keep what is known so far: a run that is interrupted loses nothing
+                json.dump(sorted(results, key=lambda x: x["case"]), open(os.path.join(HERE, "work", "selftest_partial.json"), "w"), indent=1)
 
     ths = [threading.Thread(target=worker, args=(k,)) for k in range(min(JOBS, max(1, len(cs))))]
     for t in ths:
@@ -156,6 +158,8 @@ def main():
         done = {r["case"] for r in results}
         results = [r for r in json.load(open(rp)) if r["case"] not in done] + results
         results.sort(key=lambda r: r["case"])
+    # entries of cases that no longer exist are dropped
+    results = [r for r in results if os.path.isfile(os.path.join(HERE, r["case"], "patch.diff"))]
     json.dump(results, open(rp, "w"), indent=1)
     bad_total = sum(1 for r in results if not r.get("ok"))
     print("RESULTS.json: %d cases recorded, %d bad" % (len(results), bad_total))
